@@ -8,6 +8,9 @@ concrete witness.
 import RpylibModel.Model.Path
 import RpylibModel.Proofs.Lemmas.C15Lists
 import RpylibModel.Proofs.Lemmas.C15Finer
+import RpylibModel.Proofs.Lemmas.C15Vec
+import RpylibModel.Proofs.Lemmas.C15Iff
+import RpylibModel.Proofs.Lemmas.C15Spec
 import Mathlib.Tactic.Linarith
 import Mathlib.Tactic.Ring
 import Mathlib.Tactic.FieldSimp
@@ -499,5 +502,303 @@ theorem maxStep_times_strictInc {ε T : Rat} (hε : 0 < ε) (jt jv w : List Rat)
         have := h0 T (by simp); exact this) c1
       intro y hy
       exact ⟨c2 y hy, by have := c3 y hy; linarith⟩
+
+/-! ## 6. the coupled copula simulator: its own stacking of the d coordinates, fine and coarse, on shared times
+
+`CouplingProcessLevyCopula` returns arrays of shape `(2, d, n)` on one time array.  The model
+(`fixedDatesCopulaPair`, `jumpTimesCopulaPair`, `maxStepCopulaPair`) works on lists of d-vectors as the code does; the
+theorems read it coordinate by coordinate: row `c` of the fine (coarse) block is exactly the path the 1-d simulators of
+sections 1–5 assemble from the `c`-th coordinates of the fine (coarse) state increments, on the same times. -/
+
+theorem coord_vzero_cons (c : Nat) (l : List V) : coord c (vzero :: l) = 0 :: coord c l := rfl
+
+theorem coord_lastD_vcumsum_slices (c : Nat) (ss : List (List V)) :
+    coord c (ss.map (fun s => lastD vzero (vcumsum s))) = (coordSlices c ss).map (fun s => lastD 0 (cumsum s)) := by
+  simp only [coord, coordSlices, List.map_map]
+  apply List.map_congr_left
+  intro s _
+  simp only [Function.comp]
+  rw [coord_lastD, vcumsum_coord]
+
+/-- **fixed dates**: times are the product dates for both components; row `c` of the fine (coarse) jump block is the
+    per-interval value of the 1-d CTMC simulator run on coordinate `c` of the fine (coarse) increments, and row `c` of
+    each diffusion block is the running sum of its scaled Brownian increments -/
+theorem copula_fixed_coordinate (c : Nat) (dates : List Rat) (iF iC : List (List V)) (wF wC : List V) :
+    (⟨(fixedDatesCopulaPair dates iF iC wF wC).times, coord c (fixedDatesCopulaPair dates iF iC wF wC).diffF,
+        coord c (fixedDatesCopulaPair dates iF iC wF wC).fine⟩ : PathOut)
+      = fixedDatesCtmc dates (coordSlices c iF) (coord c wF) ∧
+    (⟨(fixedDatesCopulaPair dates iF iC wF wC).times, coord c (fixedDatesCopulaPair dates iF iC wF wC).diffC,
+        coord c (fixedDatesCopulaPair dates iF iC wF wC).coarse⟩ : PathOut)
+      = fixedDatesCtmc dates (coordSlices c iC) (coord c wC) := by
+  simp only [fixedDatesCopulaPair, fixedDatesCtmc, coord_vzero_cons, vcumsum_coord, coord_lastD_vcumsum_slices, and_self]
+
+/-- **jump-time mode**: one time array `[0] ++ jump times ++ [T]`; row `c` of the fine (coarse) block is the 1-d CTMC
+    assembly of the per-interval cumulative sums of coordinate `c` -/
+theorem copula_jump_times_coordinate (c : Nat) (T : Rat) (Is : List Interval) (sF sC : List (List V)) (wF wC : List V) :
+    (⟨(jumpTimesCopulaPair T Is sF sC wF wC).times, coord c (jumpTimesCopulaPair T Is sF sC wF wC).diffF,
+        coord c (jumpTimesCopulaPair T Is sF sC wF wC).fine⟩ : PathOut)
+      = assemble T (jumpTimes Is) ((coordSlices c sF).flatMap cumsum) (coord c wF) ∧
+    (⟨(jumpTimesCopulaPair T Is sF sC wF wC).times, coord c (jumpTimesCopulaPair T Is sF sC wF wC).diffC,
+        coord c (jumpTimesCopulaPair T Is sF sC wF wC).coarse⟩ : PathOut)
+      = assemble T (jumpTimes Is) ((coordSlices c sC).flatMap cumsum) (coord c wC) := by
+  simp only [jumpTimesCopulaPair, assembleV, assemble, coord_vzero_cons, coord_append, vcumsum_coord,
+    jumpValsCopula_coord]
+  simp only [coord, List.map_cons, List.map_nil]
+  rw [coord_lastD, coord_lastD, jumpValsCopula_coord, jumpValsCopula_coord]
+  exact ⟨rfl, rfl⟩
+
+/-- … which is the 1-d CTMC jump-time simulator itself on any interval list with these jump times whose sizes are the
+    `c`-th coordinates -/
+theorem copula_jump_times_is_ctmc (c : Nat) (T : Rat) (Is Js : List Interval) (sF sC : List (List V)) (wF wC : List V)
+    (ht : jumpTimes Js = jumpTimes Is) (hs : Js.map ivSizes = coordSlices c sF) :
+    (⟨(jumpTimesCopulaPair T Is sF sC wF wC).times, coord c (jumpTimesCopulaPair T Is sF sC wF wC).diffF,
+        coord c (jumpTimesCopulaPair T Is sF sC wF wC).fine⟩ : PathOut) = jumpTimesCtmc T Js (coord c wF) := by
+  rw [(copula_jump_times_coordinate c T Is sF sC wF wC).1, jumpTimesCtmc, jumpValsCtmc_eq, ht, hs]
+
+/-- **maximum step**: the ε-insertion acts on the columns (all coordinates, fine and coarse, at one time) — the times
+    are those of the 1-d coupled simulator, and row `c` of the fine / coarse block is its fine / coarse output on the
+    `c`-th coordinates -/
+theorem copula_maxstep_coordinate {ε : Rat} (hε : 0 < ε) (c : Nat) (T : Rat) (jt : List Rat) (jf jc wF wC : List V) :
+    (maxStepCopulaPair ε T jt jf jc wF wC).times = (maxStepPair ε T jt (coord c jf) (coord c jc)).times ∧
+    coord c (maxStepCopulaPair ε T jt jf jc wF wC).fine = (maxStepPair ε T jt (coord c jf) (coord c jc)).fine ∧
+    coord c (maxStepCopulaPair ε T jt jf jc wF wC).coarse = (maxStepPair ε T jt (coord c jf) (coord c jc)).coarse ∧
+    coord c (maxStepCopulaPair ε T jt jf jc wF wC).diffF = 0 :: cumsum (coord c wF) ∧
+    coord c (maxStepCopulaPair ε T jt jf jc wF wC).diffC = 0 :: cumsum (coord c wC) := by
+  obtain ⟨h1, h2, h3⟩ := maxStepPairG_map hε T (fun v : V => v c) vzero jt jf jc
+  obtain ⟨g1, g2, g3⟩ := maxStepPair_eq_G ε T jt (coord c jf) (coord c jc)
+  refine ⟨?_, ?_, ?_, ?_, ?_⟩
+  · rw [g1]; exact h1.symm
+  · rw [g2]; exact h2.symm
+  · rw [g3]; exact h3.symm
+  · simp only [maxStepCopulaPair, coord_vzero_cons, vcumsum_coord]
+  · simp only [maxStepCopulaPair, coord_vzero_cons, vcumsum_coord]
+
+/-- … hence each of the `2·d` rows, with the shared times, is the single-path maximum-step output of section 5 -/
+theorem copula_maxstep_is_single {ε : Rat} (hε : 0 < ε) (c : Nat) (T : Rat) (jt : List Rat) (jf jc wF wC : List V)
+    (h : jf.length = jc.length) :
+    (⟨(maxStepCopulaPair ε T jt jf jc wF wC).times, coord c (maxStepCopulaPair ε T jt jf jc wF wC).diffF,
+        coord c (maxStepCopulaPair ε T jt jf jc wF wC).fine⟩ : PathOut) = maxStepCode ε T jt (coord c jf) (coord c wF) ∧
+    (⟨(maxStepCopulaPair ε T jt jf jc wF wC).times, coord c (maxStepCopulaPair ε T jt jf jc wF wC).diffC,
+        coord c (maxStepCopulaPair ε T jt jf jc wF wC).coarse⟩ : PathOut) = maxStepCode ε T jt (coord c jc) (coord c wC) := by
+  obtain ⟨h1, h2, h3, h4, h5⟩ := copula_maxstep_coordinate hε c T jt jf jc wF wC
+  have hl : (coord c jf).length = (coord c jc).length := by simp [coord, h]
+  obtain ⟨a1, _, a3, _⟩ := coupled_aligned hε T jt (coord c jf) (coord c jc) (coord c wF) hl
+  obtain ⟨_, b2, _, b4⟩ := coupled_aligned hε T jt (coord c jf) (coord c jc) (coord c wC) hl
+  have dF : (maxStepCode ε T jt (coord c jf) (coord c wF)).diff = 0 :: cumsum (coord c wF) := by
+    unfold maxStepCode; split <;> rfl
+  have dC : (maxStepCode ε T jt (coord c jc) (coord c wC)).diff = 0 :: cumsum (coord c wC) := by
+    unfold maxStepCode; split <;> rfl
+  constructor
+  · rw [h1, h2, h4, a1, a3, ← dF]
+  · rw [h1, h3, h5, b2, b4, ← dC]
+
+/-- non-vacuity (d = 2, two product dates, the recorded per-interval fault visible in every row): fine increments
+    (1/8, 0), (0, 3/8) in the first interval and (-1/8, 0) in the second -/
+example :
+    coord 0 (fixedDatesCopulaPair [0, 1/2, 1]
+      [[fun c => if c = 0 then 1/8 else 0, fun c => if c = 0 then 0 else 3/8], [fun c => if c = 0 then -1/8 else 0]]
+      [[vzero, fun c => if c = 0 then 0 else 1/2], [vzero]] [] []).fine = [0, 1/8, -1/8] := by
+  decide +kernel
+
+/-! ## 7. the exact inputs on which the code satisfies the full statements
+
+The recorded faults (#17 per-interval jump sums, #18 uncapped last gap) are delimited by equivalences about the model of
+the code *as it is*: outside the stated domain the full statement is false, inside it is true. -/
+
+/-- **fixed dates, full running sums ⇔ every product interval except possibly the last has zero jump sum**
+    (direct and CTMC simulators; `allZeroButLast` is the executable decider run by the driver) -/
+theorem fixedDates_code_eq_spec_iff (dates w : List Rat) (incs : List (List Rat)) :
+    (fixedDatesCode dates incs w = fixedDatesSpec dates incs w ↔ allZeroButLast incs = true) ∧
+    (fixedDatesCtmc dates incs w = fixedDatesSpec dates incs w ↔ allZeroButLast incs = true) ∧
+    (allZeroButLast incs = true ↔ ∀ s ∈ incs.dropLast, sumL s = 0) := by
+  have h1 : fixedDatesCode dates incs w = fixedDatesSpec dates incs w ↔ allZeroButLast incs = true := by
+    simp only [fixedDatesCode, fixedDatesSpec, PathOut.mk.injEq, true_and, List.cons.injEq, cumsum, allZeroButLast]
+    rw [eq_cumsumFrom_iff]
+    constructor
+    · rintro (h | ⟨_, h⟩)
+      · rw [h]; rfl
+      · exact h
+    · intro h; exact Or.inr ⟨rfl, h⟩
+  refine ⟨h1, by rw [fixedDatesCtmc_eq_code]; exact h1, ?_⟩
+  rw [allZeroButLast, zeroButLast_iff]
+  have e : (incs.map sumL).dropLast = incs.dropLast.map sumL := by
+    simp [List.dropLast_eq_take, List.map_take]
+  rw [e]
+  constructor
+  · intro h s hs; exact h _ (List.mem_map_of_mem hs)
+  · intro h x hx
+    obtain ⟨s, hs, rfl⟩ := List.mem_map.mp hx
+    exact h s hs
+
+/-- **jump-time mode, CTMC: per-interval cumulative sums = the global running sum ⇔ before every interval that has a
+    jump the total of all earlier jump sizes is 0** -/
+theorem jumpValsCtmc_eq_direct_iff (Is : List Interval) :
+    (jumpValsCtmc Is = jumpValsDirect Is ↔ restartFreeB 0 (Is.map ivSizes) = true) ∧
+    (restartFreeB 0 (Is.map ivSizes) = true ↔
+      ∀ k (hk : k < (Is.map ivSizes).length), (Is.map ivSizes)[k] ≠ [] → sumL ((Is.map ivSizes).take k).flatten = 0) := by
+  constructor
+  · rw [jumpValsCtmc_eq, jumpValsDirect, cumsum, ← flatMap_cumsum_eq_iff]
+    simp [List.flatMap_def]
+  · rw [restartFreeB_iff]; simp
+
+/-- the same for the whole returned path -/
+theorem jumpTimesCtmc_eq_direct_iff (T : Rat) (Is : List Interval) (w : List Rat) :
+    jumpTimesCtmc T Is w = jumpTimesDirect T Is w ↔ restartFreeB 0 (Is.map ivSizes) = true := by
+  rw [← (jumpValsCtmc_eq_direct_iff Is).1]
+  simp only [jumpTimesCtmc, jumpTimesDirect, assemble, PathOut.mk.injEq, true_and, List.cons.injEq]
+  constructor
+  · intro h
+    have := List.append_inj_left' h (by simp)
+    exact this
+  · intro h; rw [h]
+
+/-- **maximum step, the cap holds on the whole returned path ⇔ the gap between the last jump (0 when there is none) and
+    the maturity is at most ε** (jump times strictly increasing inside (0, T)) -/
+theorem maxStepCode_steps_le_eps_iff {ε T : Rat} (hε : 0 < ε) (jt jv w : List Rat) (hl : jt.length = jv.length)
+    (hinc : StrictInc (0 :: (jt ++ [T]))) :
+    (∀ s ∈ stepsOf (maxStepCode ε T jt jv w).times, s ≤ ε) ↔ T - lastD 0 jt ≤ ε := by
+  cases hjt : jt with
+  | nil => simp [maxStepCode, assemble, stepsOf, diffsFrom, lastD]
+  | cons a t =>
+    rw [← hjt]
+    have hne : jt ≠ [] := by rw [hjt]; simp
+    have he : jt.isEmpty = false := by rw [hjt]; rfl
+    -- the last step of the returned path is always T - (last jump time)
+    have hlastmem : (T - lastD 0 jt) ∈ stepsOf (maxStepCode ε T jt jv w).times := by
+      simp only [maxStepCode, he, Bool.false_eq_true, if_false, assemble, stepsOf_frame, List.mem_append,
+        List.mem_singleton]
+      right
+      simp only [buildFiner]
+      split
+      · rfl
+      · simp only [capAll, cumsum]
+        rw [lastD_cumsumFrom, finer_eq_spec hε, sumL_finerSpec, map_fst_toGaps _ _ hl]
+        have := sumL_diffsFrom 0 jt
+        rw [← this]
+    constructor
+    · intro h; exact h _ hlastmem
+    · intro hlast
+      by_cases hT : ε < T
+      · exact maxStepCode_steps_le_eps_partial hε hT jt jv w hne hl hlast
+      · have hTε : T ≤ ε := not_lt.mp hT
+        unfold StrictInc at hinc
+        rw [List.pairwise_cons, List.pairwise_append] at hinc
+        obtain ⟨h0, hpj, _, hjT⟩ := hinc
+        have hpw : (0 :: jt).Pairwise (· < ·) := by
+          rw [List.pairwise_cons]; exact ⟨fun x hx => h0 x (by simp [hx]), hpj⟩
+        have hm : lastD 0 jt ∈ jt := by
+          rw [lastD_eq_getLast?, List.getLast?_eq_some_getLast hne]
+          exact List.getLast_mem hne
+        have hlt : lastD 0 jt < T := hjT _ hm T (by simp)
+        simp only [maxStepCode, he, Bool.false_eq_true, if_false, assemble, buildFiner, hTε, if_true, stepsOf_frame]
+        intro s hs
+        rw [List.mem_append] at hs
+        rcases hs with hs | hs
+        · have := diffsFrom_le_span 0 jt hpw s hs; linarith
+        · simp only [List.mem_singleton] at hs; subst hs; exact hlast
+
+/-- the coded maximum-step path in one form for all branches (no jump / ε ≥ T / loop): the cap applied to the jump times
+    only, then 0 and the maturity added -/
+theorem maxStepCode_eq_assemble_capAll {ε T : Rat} (hε : 0 < ε) (jt jv w : List Rat) (hl : jt.length = jv.length)
+    (hinc : StrictInc (0 :: (jt ++ [T]))) :
+    maxStepCode ε T jt jv w = assemble T (capAll ε 0 jt jv).1 (capAll ε 0 jt jv).2 w := by
+  cases hjt : jt with
+  | nil =>
+    have hjv : jv = [] := by cases jv with
+      | nil => rfl
+      | cons a t => rw [hjt] at hl; simp at hl
+    subst hjv
+    simp [maxStepCode, capAll, toGaps, diffsFrom, finer, finerLoop, remaining, cumsum, cumsumFrom]
+  | cons a t =>
+    rw [← hjt]
+    have hne : jt ≠ [] := by rw [hjt]; simp
+    have he : jt.isEmpty = false := by rw [hjt]; rfl
+    simp only [maxStepCode, he, Bool.false_eq_true, if_false, buildFiner]
+    by_cases hT : T ≤ ε
+    · simp only [hT, if_true]
+      -- identity branch: every gap is ≤ T ≤ ε, the loop inserts nothing
+      unfold StrictInc at hinc
+      rw [List.pairwise_cons, List.pairwise_append] at hinc
+      obtain ⟨h0, hpj, _, hjT⟩ := hinc
+      have hpw : (0 :: jt).Pairwise (· < ·) := by
+        rw [List.pairwise_cons]; exact ⟨fun x hx => h0 x (by simp [hx]), hpj⟩
+      have hm : lastD 0 jt ∈ jt := by
+        rw [lastD_eq_getLast?, List.getLast?_eq_some_getLast hne]
+        exact List.getLast_mem hne
+      have hlt : lastD 0 jt < T := hjT _ hm T (by simp)
+      have hgaps : ∀ p ∈ toGaps jt jv, p.1 ≤ ε := by
+        intro p hp
+        have : p.1 ∈ (toGaps jt jv).map (fun q => q.1) := List.mem_map_of_mem hp
+        rw [map_fst_toGaps _ _ hl] at this
+        have := diffsFrom_le_span 0 jt hpw _ this
+        linarith
+      simp only [capAll, finer_eq_spec hε, finerSpec_noop hε 0 _ hgaps, map_fst_toGaps _ _ hl, map_snd_toGaps _ _ hl,
+        cumsum, cumsumFrom_diffsFrom]
+    · simp only [hT, if_false]
+
+/-- **the whole coded maximum-step path is the specified one ⇔ the gap between the last jump (0 when there is none) and
+    the maturity is at most ε** -/
+theorem maxStepCode_eq_spec_iff {ε T : Rat} (hε : 0 < ε) (jt jv w : List Rat) (hl : jt.length = jv.length)
+    (hinc : StrictInc (0 :: (jt ++ [T]))) :
+    maxStepCode ε T jt jv w = maxStepSpec ε T jt jv w ↔ T - lastD 0 jt ≤ ε := by
+  constructor
+  · intro h
+    rw [← maxStepCode_steps_le_eps_iff hε jt jv w hl hinc, h]
+    exact maxStepSpec_steps_le_eps hε T jt jv w
+  · intro hlast
+    rw [maxStepCode_eq_assemble_capAll hε jt jv w hl hinc]
+    have hG := toGaps_append_singleton jt jv T (lastD 0 jv) hl
+    have hsum : (0 : Rat) + sumL ((finerSpec ε (0 : Rat) (toGaps jt jv)).map (fun q => q.1)) = lastD 0 jt := by
+      rw [sumL_finerSpec, map_fst_toGaps _ _ hl]; exact sumL_diffsFrom 0 jt
+    have hlastv : lastD 0 ((finerSpec ε (0 : Rat) (toGaps jt jv)).map (fun q => q.2)) = lastD 0 jv := by
+      rw [lastD_snd_finerSpec, map_snd_toGaps _ _ hl]
+    simp only [maxStepSpec, assemble, capAll, finer_eq_spec hε, hG, finerSpec_append,
+      block_of_le hε _ (T - lastD 0 jt, lastD 0 jv) hlast, List.map_append, List.map_cons, List.map_nil, cumsum,
+      cumsumFrom_append, cumsumFrom, hlastv]
+    have e : (0 : Rat) + sumL ((finerSpec ε (0 : Rat) (toGaps jt jv)).map (fun q => q.1)) + (T - lastD 0 jt) = T := by
+      rw [hsum]; ring
+    rw [e]
+
+/-- the coupled (1-d and copula) maximum-step simulators share these times: the same equivalence holds for them -/
+theorem coupled_steps_le_eps_iff {ε T : Rat} (hε : 0 < ε) (jt jf jc : List Rat) (hl : jt.length = jf.length)
+    (hfc : jf.length = jc.length) (hinc : StrictInc (0 :: (jt ++ [T]))) :
+    (∀ s ∈ stepsOf (maxStepPair ε T jt jf jc).times, s ≤ ε) ↔ T - lastD 0 jt ≤ ε := by
+  rw [(coupled_aligned hε T jt jf jc [] hfc).1]
+  exact maxStepCode_steps_le_eps_iff hε jt jf [] hl hinc
+
+theorem copula_steps_le_eps_iff {ε T : Rat} (hε : 0 < ε) (jt : List Rat) (jf jc wF wC : List V)
+    (hl : jt.length = jf.length) (hfc : jf.length = jc.length) (hinc : StrictInc (0 :: (jt ++ [T]))) :
+    (∀ s ∈ stepsOf (maxStepCopulaPair ε T jt jf jc wF wC).times, s ≤ ε) ↔ T - lastD 0 jt ≤ ε := by
+  rw [(copula_maxstep_coordinate hε 0 T jt jf jc wF wC).1]
+  exact coupled_steps_le_eps_iff hε jt (coord 0 jf) (coord 0 jc) (by simp [coord, hl]) (by simp [coord, hfc]) hinc
+
+/-- the equivalences read on the rows of the coupled copula output: row `c` of the fine block (with the shared times) is
+    the running-sum path of its own increments exactly on the 1-d domains above -/
+theorem copula_rows_iff (c : Nat) (dates : List Rat) (iF iC : List (List V)) (wF wC : List V) :
+    ((⟨(fixedDatesCopulaPair dates iF iC wF wC).times, coord c (fixedDatesCopulaPair dates iF iC wF wC).diffF,
+        coord c (fixedDatesCopulaPair dates iF iC wF wC).fine⟩ : PathOut)
+      = fixedDatesSpec dates (coordSlices c iF) (coord c wF) ↔ allZeroButLast (coordSlices c iF) = true) ∧
+    ((⟨(fixedDatesCopulaPair dates iF iC wF wC).times, coord c (fixedDatesCopulaPair dates iF iC wF wC).diffC,
+        coord c (fixedDatesCopulaPair dates iF iC wF wC).coarse⟩ : PathOut)
+      = fixedDatesSpec dates (coordSlices c iC) (coord c wC) ↔ allZeroButLast (coordSlices c iC) = true) := by
+  obtain ⟨h1, h2⟩ := copula_fixed_coordinate c dates iF iC wF wC
+  rw [h1, h2]
+  exact ⟨(fixedDates_code_eq_spec_iff dates (coord c wF) (coordSlices c iF)).2.1,
+    (fixedDates_code_eq_spec_iff dates (coord c wC) (coordSlices c iC)).2.1⟩
+
+theorem copula_jump_times_rows_iff (c : Nat) (T : Rat) (Is Js : List Interval) (sF sC : List (List V)) (wF wC : List V)
+    (ht : jumpTimes Js = jumpTimes Is) (hs : Js.map ivSizes = coordSlices c sF) :
+    (⟨(jumpTimesCopulaPair T Is sF sC wF wC).times, coord c (jumpTimesCopulaPair T Is sF sC wF wC).diffF,
+        coord c (jumpTimesCopulaPair T Is sF sC wF wC).fine⟩ : PathOut) = jumpTimesDirect T Js (coord c wF)
+      ↔ restartFreeB 0 (coordSlices c sF) = true := by
+  rw [copula_jump_times_is_ctmc c T Is Js sF sC wF wC ht hs, jumpTimesCtmc_eq_direct_iff, hs]
+
+/-! non-vacuity of the three equivalences: both sides true, and both sides false -/
+example : allZeroButLast [[1/2, -1/2], [], [3]] = true ∧ allZeroButLast [[1/20], []] = false := by decide +kernel
+example : restartFreeB 0 [[], [1, -1], [], [2, 3]] = true ∧ restartFreeB 0 [[1], [1]] = false := by decide +kernel
+example : StrictInc (0 :: ([1/2, 15/16] ++ [(1 : Rat)])) ∧ (1 : Rat) - lastD 0 [1/2, 15/16] ≤ 1/10 := by
+  constructor
+  · unfold StrictInc; simp; norm_num
+  · norm_num [lastD]
 
 end Rpylib.Path
